@@ -76,7 +76,7 @@ def datum_shape(d, depth=0):
     if isinstance(d, tuple) and len(d) == 2 and isinstance(d[0], str):
         return ("T", d[0], datum_shape(d[1], depth + 1))
     if hasattr(d, "keys"):
-        return ("D", type(d).__name__, tuple(sorted((str(k), datum_shape(d[k], depth + 1)) for k in list(d.keys())[:8])), min(len(d), 70))
+        return ("D", type(d).__name__, tuple(sorted(((str(k), datum_shape(d[k], depth + 1)) for k in list(d.keys())[:8]), key=repr)), min(len(d), 70))
     if isinstance(d, (list, tuple)) or hasattr(d, "__len__") and hasattr(d, "__iter__"):
         lst = list(d)
         return ("L", type(d).__name__, tuple(datum_shape(x, depth + 1) for x in lst[:4]), min(len(lst), 70))
